@@ -63,6 +63,10 @@ var c11Alphabet = []RegOp{
 	{Kind: "regconn", Target: "b1", Adv: []string{svcMessaging}, Fail: "refl:2"}, // changed AND breaking after the old registration was taken out of the clone
 	{Kind: "regconn", Target: "b2", Fail: "refl:1"},
 	{Kind: "regconn", Target: "b3", Fail: "cancel"},
+	// a backend on the newer build of the sim files, and one on the older build
+	// (which cannot serve Users on this mux unless somebody else already does)
+	{Kind: "regconn", Target: "b2", SimBuild: 1, Adv: []string{svcSimUsers}},
+	{Kind: "regconn", Target: "b3", SimBuild: 2, Adv: []string{svcSimUsers}},
 }
 
 type probeKind struct{ method, proto, codec, route, selector string }
@@ -92,6 +96,9 @@ var probeKinds = []probeKind{
 	// in a file it imports
 	{"raw", "http", "json", "GET /sim/users/u2?email=u2%40sim.test", svcSimUsers + ".GetUser"},
 	{"raw", "http", "json", "GET /sim/orders/o2?buyer.email=b%40sim.test", svcSimOrders + ".GetOrder"},
+	// a service-config rule of the mux that binds that field in the path: it
+	// can only be compiled against the newer build
+	{"raw", "http", "json", "GET /sim/mail/m1", svcSimUsers + ".GetUser"},
 }
 
 // registryRules are the service-config rules every registrysim mux carries.
@@ -105,6 +112,11 @@ var registryRules = []RuleSpec{{
 }, {
 	Selector: svcFiles + ".UploadDownload", Verb: "get", Template: "/zz/{filename=d/*}",
 	Additional: []RuleSpec{{Verb: "get", Template: "/larking.testpb.Messaging/GetMessageOne/x/{filename}"}},
+}, {
+	// binds a field that only the newer build of sim/users.proto has: a backend
+	// on the older build cannot be registered for Users while nobody else
+	// provides it (the rule does not compile against its descriptors)
+	Selector: svcSimUsers + ".GetUser", Verb: "get", Template: "/sim/mail/{email}",
 }}
 
 func mkProbe(r *core.Rand, id int, pk probeKind) ReqSpec {
@@ -189,6 +201,11 @@ func genC11(r *core.Rand, run int) *MuxScenario {
 				if k > n/2 {
 					op = RegOp{Kind: "regconn", Target: "b3", Fail: "dead"}
 				}
+			case 6:
+				// the backend was redeployed on the older or the newer build of
+				// the sim files before it registers
+				op = RegOp{Kind: "regconn", Target: r.PickS("b2", "b3"), SimBuild: 1 + r.Intn(2),
+					Adv: [][]string{{svcSimUsers}, {svcSimUsers, tsvc}, {svcSimOrders, svcSimUsers}, {svcSimOrders}, {tsvc}}[r.Intn(5)]}
 			case 4, 5:
 				// the backend was redeployed with another version of its
 				// descriptors (one HTTP binding moved) before it registers
@@ -202,6 +219,24 @@ func genC11(r *core.Rand, run int) *MuxScenario {
 	}
 	sc.Registrars = [][]RegOp{ops}
 	genProbes(r, sc, len(ops), full)
+	// Once a backend has been put on the older build of the sim files, builds
+	// of one file may be registered side by side; what a request that uses the
+	// newer field meets there is not stated (it may be handed to the backend
+	// that does not know the field). Such requests are not made from then on.
+	for k, op := range ops {
+		if op.SimBuild != 2 {
+			continue
+		}
+		var keep []ReqSpec
+		for _, rq := range sc.Reqs {
+			if rq.Round > k && rq.Raw != nil && (strings.Contains(rq.Raw.Path, "email") || strings.HasPrefix(rq.Raw.Path, "/sim/mail/")) {
+				continue
+			}
+			keep = append(keep, rq)
+		}
+		sc.Reqs = keep
+		break
+	}
 	return sc
 }
 
@@ -220,6 +255,9 @@ func historyString(ops []RegOp) string {
 		}
 		if op.Schema != 0 {
 			s += ":v" + strconv.Itoa(op.Schema)
+		}
+		if op.SimBuild != 0 {
+			s += ":sim" + []string{"", "new", "old"}[op.SimBuild]
 		}
 		parts = append(parts, s)
 	}
@@ -256,6 +294,8 @@ func oracleRegistrySequential(prop string, mr *muxRun, res *RunResult) *Violatio
 	model := liveSet{}
 	dead := map[string]bool{}
 	states := map[string]bool{}
+	simOld := map[string]bool{} // targets that run the older build of the sim files right now
+	simMixed := false           // an older build was registered for Users or Orders at some point
 	for k, rr := range g.res {
 		op := rr.Op
 		hist := historyString(g.ops[:k+1])
@@ -273,6 +313,33 @@ func oracleRegistrySequential(prop string, mr *muxRun, res *RunResult) *Violatio
 			}
 		}
 		mayFail := false
+		if op.SimBuild != 0 {
+			simOld[op.Target] = op.SimBuild == 2
+		}
+		if op.Kind == "regconn" && simOld[op.Target] && op.Fail == "" && !dead[op.Target] {
+			users, orders := false, false
+			for _, s := range rr.AdvAt {
+				users = users || s == svcSimUsers
+				orders = orders || s == svcSimOrders
+			}
+			others := 0
+			for _, tgt := range model.targets(svcSimUsers) {
+				if tgt != op.Target {
+					others++
+				}
+			}
+			switch {
+			case users && others == 0 && !simMixed:
+				// the mux's rule GET /sim/mail/{email} has to be compiled
+				// against this backend's User, which has no such field
+				mustFail = true
+			case users:
+				mayFail = true // the rule is there already, compiled against somebody else's build
+			}
+			if (users || orders) && rr.Err == nil {
+				simMixed = true // builds of one file side by side: what a request with the newer field meets is not stated
+			}
+		}
 		if strings.HasPrefix(op.Fail, "refl:") && !dead[op.Target] {
 			// the reflection stream breaks after j replies: whether that is
 			// fatal depends on how many replies this registration needs
@@ -291,7 +358,11 @@ func oracleRegistrySequential(prop string, mr *muxRun, res *RunResult) *Violatio
 			if mustFail {
 				cnt[cFailedRegistration]++
 				if rr.Err == nil {
-					return violationf(prop, "broken-registration-accepted", ctx, "history [%s]: the registration could not have completed (%s) but returned nil", hist, op.Fail)
+					why := op.Fail
+					if why == "" {
+						why = "its descriptors do not compile: an HTTP rule binds a field its messages do not have"
+					}
+					return violationf(prop, "broken-registration-accepted", ctx, "history [%s]: the registration could not have completed (%s) but returned nil", hist, why)
 				}
 				if rr.SnapAfter != rr.SnapBefore || rr.FPAfter != rr.FPBefore {
 					return violationf(prop, "failed-registration-changed-state", ctx, "history [%s]: the failed registration (%v) changed the published routing state", hist, rr.Err)
@@ -336,6 +407,9 @@ func oracleRegistrySequential(prop string, mr *muxRun, res *RunResult) *Violatio
 				continue
 			}
 			svc := rs.method.Service
+			if simMixed && (svc == svcSimUsers || svc == svcSimOrders) {
+				continue
+			}
 			want := model.targets(svc)
 			out := rs.probeOutcome()
 			pctx := ctx + "/" + rs.spec.Proto + "/" + rs.method.Key + "/" + rs.spec.Route
